@@ -45,6 +45,14 @@ const char * MemberExpression::KEYWORDS[] = {
   "delete",   "insert",     "set",
 };
 
+Value& MemberExpression::receiver(Context& ctx) const
+{
+  Value& val = _exp->value(ctx);
+  if (val.lvalue() && !_exp->isConst() && !_exp->isStorage())
+    return ctx.allocate(val.clone());
+  return val;
+}
+
 MemberExpression::~MemberExpression()
 {
   if (_exp)
